@@ -654,6 +654,7 @@ type c17COut struct {
 	OK       bool   // accepted / produced / decrypted to the original / verified
 	Refused  bool   // refused by a validity check
 	NotFound bool   // the key does not exist (any more)
+	Failed   bool   // answered "key not found / deleted" while a forced restore of its key was in progress: must have had no effect
 	Ver      int    // rotate: the new latest version; encrypt / sign: version label of the output
 	F        [4]int // read: latest, min_dec, min_enc, min_avail
 	Err      string // refusal text, or an unexpected failure when none of the flags is set
@@ -661,6 +662,8 @@ type c17COut struct {
 
 func (o c17COut) String() string {
 	switch {
+	case o.Failed:
+		return "failed-without-effect(" + o.Err + ")"
 	case o.NotFound:
 		return "not-found"
 	case o.Refused:
@@ -769,6 +772,12 @@ func c17KStep(st c17KS, in c17CIn, out c17COut) (bool, c17KS) {
 // backup records the state of the key; deleting and creating the key again
 // gives a new key with one version.
 func c17CStep(st c17CState, in c17CIn, out c17COut) (bool, c17CState) {
+	if out.Failed {
+		// a request that raced a forced restore of its key and was answered with
+		// an error: legal in any state, and it changes nothing (whether it really
+		// changed nothing is checked against storage and the served policy)
+		return true, st
+	}
 	switch in.Kind {
 	case "decrypt2", "verify2", "hmacverify2", "read2":
 		in.Kind = strings.TrimSuffix(in.Kind, "2")
@@ -1671,8 +1680,8 @@ func c17CImpossible(h *c17CRec, states []c17CState) string {
 // answer must be legal in at least one state the acknowledged operations allow.
 func (u *c17CRun) checkResets(v *c17CVerdict, r *kit.Result, hist []*c17CRec) {
 	for _, h := range hist {
-		if !h.Out.OK && !h.Out.Refused && !h.Out.NotFound {
-			continue // failed request: reported by check
+		if h.Out.Failed || (!h.Out.OK && !h.Out.Refused && !h.Out.NotFound) {
+			continue // failed without effect while its key was being restored / failed request: reported by check
 		}
 		states := c17CPossible(u.sc.Init, hist, h, h.Call, h.Ret)
 		if len(states) == 0 {
@@ -1730,15 +1739,50 @@ func (u *c17CRun) checkResets(v *c17CVerdict, r *kit.Result, hist []*c17CRec) {
 	}
 }
 
+// c17COnSecond: the operation addresses the second key name.
+func c17COnSecond(kind string) bool {
+	return strings.HasPrefix(kind, "restore2") || (strings.HasSuffix(kind, "2") && !strings.HasPrefix(kind, "restore"))
+}
+
+// c17CMarkFailed rewrites the answer "key not found / key has been deleted"
+// of every operation whose call interval overlaps an ACKNOWLEDGED restore
+// with force onto the same key name into "failed without effect": the
+// property says what successful operations return; it does not require a
+// request that races the replacement of its key to succeed, only that the
+// failure has no effect. An operation that started after the restore was
+// acknowledged keeps its answer (not-found is then illegal).
+func c17CMarkFailed(hist []*c17CRec, r *kit.Result) {
+	for _, h := range hist {
+		if !h.Out.NotFound || strings.HasPrefix(h.In.Kind, "restore") {
+			continue
+		}
+		for _, rs := range hist {
+			if rs == h || !rs.Out.OK || (rs.In.Kind != "restore" && rs.In.Kind != "restore2") || c17COnSecond(rs.In.Kind) != c17COnSecond(h.In.Kind) {
+				continue
+			}
+			if h.Call < rs.Ret && h.Ret > rs.Call {
+				h.Out = c17COut{Failed: true, Err: "not found / deleted while " + rs.String() + " was in progress"}
+				r.Count("overlapping_ops_failed_without_effect_accepted", 1)
+				r.Count("overlapping_ops_failed_without_effect_accepted:"+h.In.Kind, 1)
+				break
+			}
+		}
+	}
+}
+
 // check applies the real-time rule and the linearizability check to the
 // history collected so far (clients + the harness's own probes).
 func (u *c17CRun) check(v *c17CVerdict, r *kit.Result) {
 	hist := append([]*c17CRec(nil), u.hist...)
 	sort.Slice(hist, func(i, j int) bool { return hist[i].Call < hist[j].Call })
+	c17CMarkFailed(hist, r)
 	rotVer := map[int]*c17CRec{}
 	resets := u.sc.hasResets()
 	for _, h := range hist {
 		o := h.Out
+		if o.Failed {
+			continue
+		}
 		if !o.OK && !o.Refused && !o.NotFound {
 			cls := "C17-concurrent-request-failed"
 			switch {
@@ -1823,7 +1867,7 @@ func (u *c17CRun) check(v *c17CVerdict, r *kit.Result) {
 	// linearizability of the whole history against the reference
 	ops := make([]porcupine.Operation, 0, len(hist))
 	for _, h := range hist {
-		if !h.Out.OK && !h.Out.Refused && !h.Out.NotFound {
+		if !h.Out.Failed && !h.Out.OK && !h.Out.Refused && !h.Out.NotFound {
 			return // already reported
 		}
 		ops = append(ops, porcupine.Operation{ClientId: h.Client, Input: h.In, Call: h.Call, Output: h.Out, Return: h.Ret})
@@ -2234,6 +2278,7 @@ func c17COneTry(ctx context.Context, r *kit.Result, sc *c17CScen, id string, pol
 	u.quiesce(v, r)
 	histDump()
 	u.check(v, r)
+	histDump() // answers rewritten to "failed without effect" show as such
 	if len(v.fired) == 0 {
 		r.Sample(map[string]any{"case": id, "scenario": sc.name(), "mode": mode, "history": witness["history"], "access_order": order})
 	}
